@@ -127,6 +127,7 @@ Lemma R_set_comp x c i n : R x -> R (set_comp x c i n). Proof. exact (fun H => H
 Lemma R_set_olog x v : R x -> R (set_olog x v). Proof. exact (fun H => H). Qed.
 Lemma R_set_cprog x v : R x -> R (set_cprog x v). Proof. exact (fun H => H). Qed.
 Lemma R_set_tim x a b c d : R x -> R (set_tim x a b c d). Proof. exact (fun H => H). Qed.
+Lemma R_set_nown x v : R x -> R (set_nown x v). Proof. exact (fun H => H). Qed.
 Lemma R_set_tmeta x v : R x -> R (set_tmeta x v). Proof. exact (fun H => H). Qed.
 Lemma R_add_sout k v x : R x -> R (add_sout k v x). Proof. exact (fun H => H). Qed.
 Lemma R_try_io x b f w : R x -> R (snd (try_io x b f w)).
@@ -166,7 +167,10 @@ Lemma R_do_op o x : R x -> R (do_op o x).
 Proof.
   intros H. destruct o; try (apply R_oco; exact H); cbn [do_op]; cbv zeta; try (apply R_comp_start; exact H); try (apply R_comp_start, R_set_cprog; exact H);
     try (destruct (closedA (os_get x f)); [apply R_os_put; exact H|exact H]; fail);
-    try (apply R_stp, R_set_tim, R_set_tmeta, R_add_sout; exact H; fail).
+    try (apply R_stp, R_set_tim, R_set_tmeta, R_add_sout; exact H; fail);
+    try (destruct (closedA (os_get x f) || not_owner x f); [exact H|apply R_set_nown; exact H]; fail);
+    try (destruct (closedA (os_get x f)); [exact H|]; destruct (not_owner x f); [apply R_stp; exact H|apply R_set_nown, R_stp; exact H]; fail);
+    try (destruct (closedA (os_get x f) || negb (not_owner x f)); [exact H|apply R_set_nown, R_stp; exact H]; fail).
   - apply R_stp. exact H.
   - apply R_stp. exact H.
   - apply R_stp. exact H.
@@ -176,7 +180,7 @@ Proof.
   - apply R_stp. exact H.
   - apply R_stp. exact H.
   - apply R_stp. exact H.
-  - destruct (closedA (os_get x f)); [exact H|]. apply R_os_put, R_stp. exact H.
+  - destruct (closedA (os_get x f)); [exact H|]. destruct (not_owner x f); [apply R_stp; exact H|]. apply R_os_put, R_stp. exact H.
   - destruct (closedA (os_get x f) || hup (os_get x f)); [exact H|apply R_os_put; exact H].
   - destruct (closedA (os_get x f)); [exact H|apply R_os_put; exact H].
   - destruct (closedA (os_get x f) || hup (os_get x f)); [exact H|apply R_os_put; exact H].
